@@ -72,13 +72,21 @@ def snapshot(root):
     return snap
 
 
-def covered_files(root, has_git, submods=()):
+def covered_files(root, has_git, submods=(), include_meson=False, include_submodules=False):
     paths = GT.all_paths(root)
     rels = [p for p, _k, _s in paths]
     ignored = GT.git_ignored(root, rels) if has_git else set()
     cov, unspec = set(), set()
     for p, kind, size in paths:
-        v, _w = RC.classify(p, kind, size, vcs_ignored=p in ignored, in_submodule=any(p == sm or p.startswith(sm + "/") for sm in submods))
+        in_sub = any(p == sm or p.startswith(sm + "/") for sm in submods)
+        if in_sub and include_submodules:
+            # an included submodule: which ignore rules hold inside it is not stated (the superproject's do not apply, the submodule's own
+            # are unspecified); its files may be touched, none has to be
+            v, _w = RC.classify(p, kind, size, include_meson=include_meson)
+            if v != RC.EXCLUDED:
+                unspec.add(p)
+            continue
+        v, _w = RC.classify(p, kind, size, vcs_ignored=p in ignored, in_submodule=in_sub, include_meson=include_meson)
         if v == RC.COVERED and not RC.is_cal_shl(p.rsplit("/", 1)[-1]):
             cov.add(p)
         elif v != RC.EXCLUDED:
@@ -217,11 +225,12 @@ class Machine(RuleBasedStateMachine):
         self._run(["--no-multiprocessing", "lint-file", *(["--quiet"] if quiet else []), "--", *chosen], lambda b: set(), "ro")
 
     @precondition(lambda self: self.base is not None and len(self.history) <= 7)
-    @rule(out=st.sampled_from([None, None, "bom.spdx", "docs-out.spdx.json"]), concluded=st.booleans())
-    def spdx(self, out, concluded):
+    @rule(out=st.sampled_from([None, None, "bom.spdx", "bom.spdx", "docs-out.spdx.json"]), concluded=st.booleans(), creator=st.sampled_from([True, True, False]))
+    def spdx(self, out, concluded, creator=True):
         args = ["--no-multiprocessing", "spdx"]
         if concluded:
-            args += ["--add-license-concluded", "--creator-person", "V"]
+            # (without a creator the command is refused: exit 2, and then nothing may be touched, the -o file included)
+            args += ["--add-license-concluded"] + (["--creator-person", "V"] if creator else [])
         if out:
             args += ["-o", out]
         self._run(args, lambda b: {out} if out else set(), "ro" if not out else "mut")
@@ -253,8 +262,9 @@ class Machine(RuleBasedStateMachine):
 
     @precondition(lambda self: self.base is not None and len(self.history) <= 7)
     @rule(picks=st.lists(st.integers(0, 100), min_size=1, max_size=2), dot=st.sampled_from(["--fallback-dot-license", "--skip-unrecognised", "--force-dot-license"]),
-          where=st.sampled_from(["root", "root", "subdir", "subdir", "outside"]), wpick=st.integers(0, 100))
-    def annotate_recursive(self, picks, dot, where="root", wpick=0):
+          where=st.sampled_from(["root", "root", "subdir", "subdir", "outside"]), wpick=st.integers(0, 100),
+          include=st.sampled_from([(), (), ("--include-meson-subprojects",), ("--include-submodules",), ("--include-submodules", "--include-meson-subprojects")]))
+    def annotate_recursive(self, picks, dot, where="root", wpick=0, include=()):
         dirs = self._dirs() + ["."]
         chosen = sorted({dirs[i % len(dirs)] for i in picks})
         # started in the root, in a sub-directory of the project (paths relative to it), or elsewhere with --root
@@ -268,7 +278,7 @@ class Machine(RuleBasedStateMachine):
             cwd, pre = self.base, ["--root", "proj"]
         self.ctx.label(f"annotate -r: started in {where if cwd != self.root else 'root'}" + (" (submodule present)" if self.submods else ""))
         named = [os.path.relpath(self.root / d, cwd) for d in chosen]
-        cov, unspec = covered_files(self.root, self.has_git, self.submods)
+        cov, unspec = covered_files(self.root, self.has_git, self.submods, include_meson="--include-meson-subprojects" in include, include_submodules="--include-submodules" in include)
 
         def below(p):
             return any(d == "." or p.startswith(d + "/") for d in chosen)
@@ -280,7 +290,7 @@ class Machine(RuleBasedStateMachine):
                     out |= {p, p + ".license"} if not os.path.islink(self.root / (p + ".license")) else {p}
             return out
 
-        self._run([*pre, "annotate", "--copyright", "Verif", "--license", "MIT", "--year", "2020", dot, "-r", "--", *named], allowed, "mut", cwd=cwd)
+        self._run([*pre, *include, "annotate", "--copyright", "Verif", "--license", "MIT", "--year", "2020", dot, "-r", "--", *named], allowed, "mut", cwd=cwd)
 
     @precondition(lambda self: self.base is not None and len(self.history) <= 7)
     @rule(pick=st.integers(0, 100), dot=st.sampled_from(["--fallback-dot-license", "--skip-unrecognised", "--force-dot-license"]))
